@@ -466,7 +466,7 @@ fn instantiate_path(rng: &mut Rng, t: &str) -> String {
 }
 
 /// A probe built from a rule: every trigger instantiated, then maybe one aspect perturbed.
-fn probe_from_rule(rng: &mut Rng, rule: &Value) -> Probe {
+pub(crate) fn probe_from_rule(rng: &mut Rng, rule: &Value) -> Probe {
     let s = &rule["source"];
     let mut path = instantiate_path(rng, s["path"].as_str().unwrap_or("/"));
     if let Some(q) = s["query"].as_str() {
